@@ -20,10 +20,16 @@
      aug_gram_pos_def X    the quadratic form of [X 1]^T [X 1] is positive definite (equivalent)
      indep_cols m n A      the same for a function matrix of C01 (m rows, n columns)
      col_sd X j            sqrt (sum_i (X_ij - mean_j)^2 / n), the population deviation of column j
-     predicts X' wm b yh   predict ROps X' wm b = Some yh, |yh| = nrows X', yh_i = sum_k X'_ik w_k + b *)
+     predicts X' wm b yh   predict ROps X' wm b = Some yh, |yh| = nrows X', yh_i = sum_k X'_ik w_k + b
+   SVD paths end to end (C07/ProofsSVDModel.v):
+     svd_model_solver cs minpos   svd_solve_mut ROps 0 cs minpos: C01's svd_mut at eps = 0, then SVD::solve
+     svd_regular_on cs minpos a   C01's bd_regular for the system matrix a (no non-zero bidiagonal
+                                  entry below minpos); ols_svd_regular / ridge_svd_regular: the same
+                                  for the system that fit builds
+     cs_spec cs                   cs is copysign (C01) *)
 From Coq Require Import List Arith Bool Reals Lra Lia.
-From SC Require Import Base.Num C01.Model C01.Proofs C01.Proofs_svd C03.ProofsBase
-     C07.Model C07.ProofsObj C07.ProofsFit C07.ProofsRidge C07.ProofsSolve C07.ProofsOLS C07.ProofsMain C07.ProofsOLSTotal C07.ProofsOLSGram C07.ProofsRidgeTotal C07.ProofsPredict.
+From SC Require Import Base.Num C01.Model C01.Proofs C01.Proofs_svd C01.Proofs_svd_bidiag C03.ProofsBase
+     C07.Model C07.ProofsObj C07.ProofsFit C07.ProofsRidge C07.ProofsSolve C07.ProofsOLS C07.ProofsMain C07.ProofsOLSTotal C07.ProofsOLSGram C07.ProofsRidgeTotal C07.ProofsPredict C07.ProofsSVDModel.
 Import ListNotations.
 Open Scope R_scope.
 
@@ -261,6 +267,89 @@ Theorem C07_predict_shape_mismatch : forall (X w : dm R) (b : R), ncols X <> nro
   predict ROps X w b = None.
 Proof. exact predict_none. Qed.
 
+(* ===================== the SVD paths end to end (C01's svd_mut, eps = 0) ===================== *)
+(* The SVD-path theorems above hold for every factorisation routine with `svd_postcondition`.  Here
+   the routine is C01's own transliteration of svd_mut with the negligibility threshold eps = 0
+   (svd_model_solver cs minpos = svd_solve_mut ROps 0 cs minpos of C07/Model.v), and the
+   post-condition is discharged from C01's svd_mut_correct (the theorem C01_svd_factorisation_exact of
+   Properties/C01.v): C07/ProofsSVDModel.v.  Hypotheses that remain, stated plainly:
+     - `fit ... = Some (wm, b)`, i.e. the factorisation model RETURNED (C01 proves no convergence: over
+       R with eps = 0 the sweeps terminate only on special inputs, e.g. one-column systems);
+     - svd_regular_on cs minpos a = C01's bd_regular for the system matrix a that fit hands to the
+       solver: no entry of its bidiagonal form is non-zero but smaller than minpos in magnitude
+       (otherwise C01 REFUTES the factorisation); ols_svd_regular / ridge_svd_regular say this for the
+       augmented design [X 1] resp. for the ridge system Z^T Z + alpha I that fit builds;
+     - 0 < minpos, cs_spec cs (the copysign parameter is copysign). *)
+(* the guarded factorisation (None on irregular inputs, svd_mut otherwise) meets the post-condition
+   for ALL inputs; on regular system matrices the model solver is the guarded one *)
+Theorem C07_svd_model_postcondition : forall cs minpos, 0 < minpos -> cs_spec cs ->
+  svd_postcondition 0 (svd_fact_reg cs minpos) /\
+  (forall a b, svd_regular_on cs minpos a -> svd_model_solver cs minpos a b = svd_reg_solver cs minpos a b).
+Proof.
+  intros cs minpos H1 H2. split; [exact (svd_fact_reg_postcondition cs minpos H1 H2)|].
+  intros a b Hr. exact (svd_reg_solver_eq cs minpos a b Hr).
+Qed.
+(* SVD::solve of the model on a regular tall system: the normal equations; on a regular SPD system: exact *)
+Theorem C07_svd_model_solver_exact : forall cs minpos, 0 < minpos -> cs_spec cs ->
+  (forall a b w, svd_regular_on cs minpos a ->
+     wfR a -> wfR b -> nrows b = nrows a -> ncols b = 1%nat -> (ncols a <= nrows a)%nat ->
+     svd_model_solver cs minpos a b = Some w -> lsq_solution a b w) /\
+  (forall a rhs w, svd_regular_on cs minpos a -> square_system a rhs -> sym a -> pos_def a ->
+     svd_model_solver cs minpos a rhs = Some w -> lin_solution a rhs w).
+Proof.
+  intros cs minpos H1 H2. split.
+  - intros a b w Hr A1 B1 E1 E2 E3 Hs. exact (svd_model_lsq cs minpos a b w H1 H2 Hr A1 B1 E1 E2 E3 Hs).
+  - intros a rhs w Hr Hsq Hsym Hpd Hs. exact (svd_model_exact_spd cs minpos a rhs w H1 H2 Hr Hsq Hsym Hpd Hs).
+Qed.
+(* OLS through the SVD model: whatever fit returns satisfies the normal equations and minimises *)
+Theorem C07_ols_svd_model_exact : forall cs minpos (X : dm R) (y : list R) wm b,
+  0 < minpos -> cs_spec cs -> wfR X -> (ncols X < nrows X)%nat -> ols_svd_regular cs minpos X ->
+  ols_fit ROps (svd_model_solver cs minpos) X y = Some (wm, b) ->
+  length y = nrows X /\ nrows wm = ncols X /\ ncols wm = 1%nat /\
+  (forall j, (j < ncols X)%nat -> rsum (nrows X) (fun i => get X i j * residual X y wm b i) = 0) /\
+  rsum (nrows X) (fun i => residual X y wm b i) = 0 /\
+  (forall w' b', objective X y 0 (colf wm) b <= objective X y 0 w' b').
+Proof. exact ols_svd_model_exact. Qed.
+(* ... and on a full-column-rank design it equals the QR fit (which exists) *)
+Theorem C07_ols_qr_svd_model_agree : forall cs minpos (X : dm R) (y : list R),
+  0 < minpos -> cs_spec cs -> wfR X -> (ncols X < nrows X)%nat -> length y = nrows X ->
+  ols_full_rank X -> ols_svd_regular cs minpos X ->
+  exists wq bq, ols_fit ROps (qr_solve_mut ROps) X y = Some (wq, bq) /\
+    forall ws bs, ols_fit ROps (svd_model_solver cs minpos) X y = Some (ws, bs) ->
+      (forall k, (k < ncols X)%nat -> get ws k 0%nat = get wq k 0%nat) /\ bs = bq.
+Proof. exact ols_qr_svd_model_agree. Qed.
+(* ridge through the SVD model, normalize = false / true: gradient zero, unique minimiser *)
+Theorem C07_ridge_svd_model_raw : forall cs minpos eps (X : dm R) (y : list R) alpha wm b,
+  0 < minpos -> cs_spec cs -> wfR X -> 0 < alpha -> ridge_svd_regular cs minpos eps X y alpha false ->
+  ridge_fit ROps (svd_model_solver cs minpos) eps X y alpha false = Some (wm, b) ->
+  b = 0 /\ nrows wm = ncols X /\ ncols wm = 1%nat /\
+  (forall j, (j < ncols X)%nat ->
+     alpha * get wm j 0%nat - rsum (nrows X) (fun i => get X i j * residual X y wm 0 i) = 0) /\
+  (forall w', objective X y alpha (colf wm) 0 <= objective X y alpha w' 0) /\
+  (forall w', objective X y alpha w' 0 <= objective X y alpha (colf wm) 0 ->
+     forall k, (k < ncols X)%nat -> w' k = get wm k 0%nat).
+Proof. exact ridge_svd_model_raw. Qed.
+Theorem C07_ridge_svd_model_normalized : forall cs minpos eps (X : dm R) (y : list R) alpha wm b,
+  0 < minpos -> cs_spec cs -> 0 < eps -> wfR X -> 0 < alpha -> ridge_svd_regular cs minpos eps X y alpha true ->
+  ridge_fit ROps (svd_model_solver cs minpos) eps X y alpha true = Some (wm, b) ->
+  exists Z mu sd, rescale_x ROps eps X = Some (Z, mu, sd) /\
+    nrows wm = ncols X /\ ncols wm = 1%nat /\
+    (forall j, (j < ncols X)%nat ->
+       alpha * (get wm j 0%nat * nth j sd 0) - rsum (nrows X) (fun i => get Z i j * residual X y wm b i) = 0) /\
+    rsum (nrows X) (fun i => residual X y wm b i) = 0 /\
+    (forall w' b', objective_std Z y alpha mu sd (colf wm) b <= objective_std Z y alpha mu sd w' b') /\
+    (forall w' b', objective_std Z y alpha mu sd w' b' <= objective_std Z y alpha mu sd (colf wm) b ->
+       (forall k, (k < ncols X)%nat -> w' k = get wm k 0%nat) /\ b' = b).
+Proof. exact ridge_svd_model_norm. Qed.
+(* "the Cholesky and SVD solvers agree", both concrete models, both normalisation settings *)
+Theorem C07_ridge_cholesky_svd_model_agree : forall cs minpos eps (X : dm R) (y : list R) alpha normalize wc bc ws bs,
+  0 < minpos -> cs_spec cs -> 0 < eps -> wfR X -> 0 < alpha ->
+  ridge_svd_regular cs minpos eps X y alpha normalize ->
+  ridge_fit ROps (cholesky_solve_mut ROps) eps X y alpha normalize = Some (wc, bc) ->
+  ridge_fit ROps (svd_model_solver cs minpos) eps X y alpha normalize = Some (ws, bs) ->
+  (forall k, (k < ncols X)%nat -> get wc k 0%nat = get ws k 0%nat) /\ bc = bs.
+Proof. exact ridge_cholesky_svd_model_agree. Qed.
+
 (* ============================ fit and predict composed ============================ *)
 (* predicts X' wm b yh (C07/ProofsPredict.v):  predict ROps X' wm b = Some yh, one value per row of
    X', the i-th being sum_k X'_ik w_k + b.  For the values fit RETURNS, predict returns on every
@@ -396,4 +485,23 @@ Proof.
   destruct (aug_gram_exists ex_X Hwf) as [a [G [Ha [HG _]]]]. exists a, G.
   split; [exact Ha|]. split; [exact HG|].
   apply (proj2 (C07_ols_full_rank_iff_aug_gram_spd ex_X a G Hwf Ha HG)). exact C07_ols_full_rank_instance.
+Qed.
+(* the hypotheses of the SVD-model theorems are satisfiable: one-column systems, where C01 proves
+   that svd_mut returns (C01_svd_column_instance): ridge on the single-feature design above (1 x 1
+   system), least squares with no feature (intercept only: the augmented design is the column of ones) *)
+Example C07_ridge_svd_model_instance : forall eps, cs_spec cs_R /\
+  exists minpos, 0 < minpos /\ ridge_svd_regular cs_R minpos eps ex_X [1; 0; 2] 1 false /\
+    exists wm b, ridge_fit ROps (svd_model_solver cs_R minpos) eps ex_X [1; 0; 2] 1 false = Some (wm, b).
+Proof.
+  intros eps. split; [exact cs_R_spec|].
+  apply ridge_svd_model_instance; [reflexivity | reflexivity | cbn; lia | reflexivity].
+Qed.
+Example C07_ols_svd_model_instance :
+  let X0 : dm R := D.mkdm 3 0 [] in
+  wfR X0 /\ (ncols X0 < nrows X0)%nat /\
+  exists minpos, 0 < minpos /\ ols_svd_regular cs_R minpos X0 /\
+    exists wm b, ols_fit ROps (svd_model_solver cs_R minpos) X0 [1; 0; 2] = Some (wm, b).
+Proof.
+  cbv zeta. split; [reflexivity|]. split; [cbn; lia|].
+  apply ols_svd_model_instance; [reflexivity | reflexivity | cbn; lia | reflexivity].
 Qed.
